@@ -51,9 +51,10 @@ VARIABLES cache,          \* [Tiles -> NoTile or [m, s, v]]: mtime (half seconds
           thr,            \* refresh_before threshold in whole seconds: tiles with m \div 2 <= thr are expired
           ver,            \* content version the upstream serves next
           served,         \* [Tiles -> NoServed or [etag, lm, body]]: validators sent from the cache since the last rewrite
+          issued,         \* ETags the server has sent so far (what a client can really hold)
           resp            \* the last step and, for requests, the response
 
-vars == <<cache, prev, clock, thr, ver, served, resp>>
+vars == <<cache, prev, clock, thr, ver, served, issued, resp>>
 
 NoTile   == [m |-> -1, s |-> -1, v |-> -1]
 NoServed == [etag |-> <<-9, -9>>, lm |-> -9, body |-> -9]
@@ -101,13 +102,14 @@ Init ==
   /\ cache = [t \in Tiles |-> NoTile] /\ prev = [t \in Tiles |-> NoTile]
   /\ clock = 2 /\ thr = 0 /\ ver = 1
   /\ served = [t \in Tiles |-> NoServed]
+  /\ issued = {}
   /\ resp = Step("Init", CHOOSE t \in Tiles : TRUE)
 
 GetCached(f, t, h) ==
   /\ Fresh(t)
   /\ LET info == [ts |-> cache[t].m, size |-> cache[t].s, cacheable |-> TRUE]
          r    == Respond(f, t, h, info, cache[t].v, "cached")
-     IN /\ resp' = r
+     IN /\ resp' = r /\ issued' = issued \cup {r.etag}
         /\ served' = [served EXCEPT ![t] = [etag |-> r.etag, lm |-> r.lm,
                                             body |-> IF r.status = 200 THEN r.body ELSE served[t].body]]
   /\ UNCHANGED <<cache, prev, clock, thr, ver>>
@@ -119,13 +121,20 @@ PreSize(t) == IF cache[t] = NoTile THEN -1 ELSE cache[t].s
 Rewritten(t, s) == [u \in Tiles |-> IF u \in Created(t) THEN [m |-> StoreTime(clock), s |-> s, v |-> ver] ELSE cache[u]]
 PrevAfter(t)    == [u \in Tiles |-> IF u \in Created(t) /\ cache[u] # NoTile THEN cache[u] ELSE prev[u]]
 
+\* (a tile is never written twice within one stored time unit - the virtual clock would give both versions the
+\* same timestamp, which real clocks do not; at the one-second granularity of sqlite the validators cannot tell
+\* such versions apart)
+NotTwiceAtOnce(t) == \A u \in Created(t) : cache[u] = NoTile \/ StoreTime(clock) > cache[u].m
+
 GetCreate(f, t, h, s) ==
   /\ ~Fresh(t)
+  /\ NotTwiceAtOnce(t)
   /\ LET info == IF Path = "single"
                    THEN [ts |-> IF ResetStamp \/ PreTs(t) = -1 THEN clock ELSE PreTs(t), size |-> s, cacheable |-> TRUE]
                  ELSE IF CopyInfo THEN [ts |-> clock, size |-> s, cacheable |-> TRUE]
                  ELSE [ts |-> PreTs(t), size |-> PreSize(t), cacheable |-> TRUE]
-     IN resp' = Respond(f, t, h, info, ver, IF cache[t] = NoTile THEN "create" ELSE "refresh")
+         r    == Respond(f, t, h, info, ver, IF cache[t] = NoTile THEN "create" ELSE "refresh")
+     IN resp' = r /\ issued' = issued \cup {r.etag}
   /\ cache' = Rewritten(t, s) /\ prev' = PrevAfter(t)
   /\ served' = [u \in Tiles |-> IF u \in Created(t) THEN NoServed ELSE served[u]]
   /\ ver' = ver + 1
@@ -138,30 +147,31 @@ GetError(f, t, h) ==
                          cacheable |-> FALSE]
                  ELSE IF CopyInfo THEN [ts |-> -1, size |-> -1, cacheable |-> FALSE]
                  ELSE [ts |-> PreTs(t), size |-> PreSize(t), cacheable |-> TRUE]
-     IN resp' = Respond(f, t, h, info, 0, "error")
+         r    == Respond(f, t, h, info, 0, "error")
+     IN resp' = r /\ issued' = issued \cup {r.etag}
   /\ UNCHANGED <<cache, prev, clock, thr, ver, served>>
 
 \* a seeder (another process) removes and re-creates the tile; never twice within one stored time unit
 Rewrite(t, s) ==
   /\ cache[t] # NoTile
-  /\ \A u \in Created(t) : cache[u] = NoTile \/ StoreTime(clock) > cache[u].m
+  /\ NotTwiceAtOnce(t)
   /\ cache' = Rewritten(t, s) /\ prev' = PrevAfter(t)
   /\ served' = [u \in Tiles |-> IF u \in Created(t) THEN NoServed ELSE served[u]]
   /\ ver' = ver + 1
   /\ resp' = [Step("Rewrite", t) EXCEPT !.body = s]
-  /\ UNCHANGED <<clock, thr>>
+  /\ UNCHANGED <<clock, thr, issued>>
 
 Expire ==
   /\ thr # clock \div 2
   /\ thr' = clock \div 2
   /\ resp' = Step("Expire", CHOOSE t \in Tiles : TRUE)
-  /\ UNCHANGED <<cache, prev, clock, ver, served>>
+  /\ UNCHANGED <<cache, prev, clock, ver, served, issued>>
 
 Tick ==
   /\ clock < MaxClock
   /\ clock' = clock + 1
   /\ resp' = Step("Tick", CHOOSE t \in Tiles : TRUE)
-  /\ UNCHANGED <<cache, prev, thr, ver, served>>
+  /\ UNCHANGED <<cache, prev, thr, ver, served, issued>>
 
 (***************************************************************************)
 (* Conditional headers worth distinguishing in a state: the validators of  *)
@@ -169,16 +179,19 @@ Tick ==
 (* one second below / at / above every second that matters; a malformed    *)
 (* date; INM and IMS together.                                             *)
 (***************************************************************************)
-EtagsFor(t) == {GARB, NN} \cup (IF cache[t] # NoTile THEN {Etag(cache[t].m, cache[t].s)} ELSE {})
-                          \cup (IF prev[t] # NoTile THEN {Etag(prev[t].m, prev[t].s)} ELSE {})
+\* (with sqlite the response that created a tile at an odd half second carried ETag(m + 1, s))
+EtagsOf(e)  == IF e = NoTile THEN {} ELSE {Etag(e.m, e.s)} \cup (IF Backend = "sqlite" THEN {Etag(e.m + 1, e.s)} ELSE {})
+EtagsFor(t) == {GARB, NN} \cup EtagsOf(cache[t]) \cup EtagsOf(prev[t])
 SecsFor(t)  == LET base == {clock \div 2} \cup (IF cache[t] # NoTile THEN {cache[t].m \div 2} ELSE {})
                                           \cup (IF prev[t] # NoTile THEN {prev[t].m \div 2} ELSE {})
                IN {d \in UNION {{b - 1, b, b + 1} : b \in base} : d >= 0}
 StaleEtags(t) == {GARB} \cup (IF prev[t] # NoTile THEN {Etag(prev[t].m, prev[t].s)} ELSE {})
+NearSecs(t)   == LET b == IF cache[t] # NoTile THEN cache[t].m \div 2 ELSE clock \div 2
+                 IN {d \in {b - 1, b, b + 1} : d >= 0}
 Hdrs(t) == {NoCond, [inm |-> NOHDR, ims |-> -2]}
            \cup {[inm |-> e, ims |-> -1] : e \in EtagsFor(t)}
            \cup {[inm |-> NOHDR, ims |-> d] : d \in SecsFor(t)}
-           \cup {[inm |-> e, ims |-> d] : e \in StaleEtags(t), d \in SecsFor(t)}
+           \cup {[inm |-> e, ims |-> d] : e \in StaleEtags(t), d \in NearSecs(t)}
            \cup {[inm |-> e, ims |-> -2] : e \in EtagsFor(t) \ {GARB}}
 
 DoGetCached == \E f \in Flavours, t \in Tiles : \E h \in Hdrs(t) : GetCached(f, t, h)
@@ -189,6 +202,18 @@ DoRewrite   == \E t \in Tiles, s \in Sizes : Rewrite(t, s)
 Next == DoGetCached \/ DoGetCreate \/ DoGetError \/ DoRewrite \/ Expire \/ Tick
 
 Spec == Init /\ [][Next]_vars
+
+(***************************************************************************)
+(* Behaviours for replay (tlc -simulate): one random request per step, so  *)
+(* that requests do not crowd out the environment actions, and only ETags  *)
+(* a client has really received (or NN / an unknown one).                  *)
+(***************************************************************************)
+SimHdrs(t) == {h \in Hdrs(t) : h.inm \in issued \cup {NOHDR, GARB, NN}}
+SimGet == \E f \in {RandomElement(Flavours)}, t \in {RandomElement(Tiles)}, s \in {RandomElement(Sizes)} :
+             \E h \in {RandomElement(SimHdrs(t))} :
+                GetCached(f, t, h) \/ GetCreate(f, t, h, s) \/ GetError(f, t, h)
+SimNext == SimGet \/ SimGet \/ (\E t \in {RandomElement(Tiles)}, s \in {RandomElement(Sizes)} : Rewrite(t, s)) \/ Expire \/ Tick
+SimSpec == Init /\ [][SimNext]_vars
 
 ----------------------------------------------------------------------------
 (* The property, stated on the response and the store after the request.  *)
@@ -227,6 +252,7 @@ StatusOK == IsGet => resp.status \in {200, 304}
 
 \* the exhaustive configurations explore the store (VIEW core) and check the property on every
 \* transition (TLC evaluates action properties for all successors, also those that reach a known state)
+\* (issued does not influence Next, resp is a function of the transition)
 core == <<cache, prev, clock, thr, ver, served>>
 Property == StatusOK /\ StableValidators /\ BodyCurrent /\ INMCurrent /\ Sound304 /\ Uncacheable
 AlwaysStatusOK         == [][StatusOK']_vars
